@@ -11,7 +11,10 @@ Import ListNotations.
 Open Scope Z_scope.
 
 (* int64(v): two's complement wrap-around of Go's int64 arithmetic *)
-Definition int64 (v : Z) : Z := (v + 2 ^ 63) mod 2 ^ 64 - 2 ^ 63.
+Definition p63 : Z := 9223372036854775808.      (* 2^63 *)
+Definition p64 : Z := 18446744073709551616.     (* 2^64 *)
+Definition int64 (v : Z) : Z :=
+  if (- p63 <=? v) && (v <? p63) then v else (v + p63) mod p64 - p63.
 (* a << k on int64 *)
 Definition shl64 (a k : Z) : Z := int64 (Z.shiftl a k).
 
@@ -75,6 +78,23 @@ Definition next (clock : list Z) (st : sf) : outcome * sf * list Z :=
             end
           else let '(o, st') := finish st b t s in (o, st', rest)
         else let '(o, st') := finish st b t 0 in (o, st', rest)
+  end.
+
+(* how many readings a call takes: one, plus those of the wait loop (used by the
+   correspondence check; Proofs.v shows that it describes [next]'s remaining clock) *)
+Fixpoint wait_k (ts : Z) (clock : list Z) : Z :=
+  match clock with
+  | [] => 0
+  | now :: rest => if now >? ts then 1 else 1 + wait_k ts rest
+  end.
+
+Definition next_k (clock : list Z) (st : sf) : Z :=
+  match clock with
+  | [] => 0
+  | t :: rest =>
+      if negb (t >? x_uuid_MaxTimeUnits) && negb ((t <? lastTU st) && (bc st >=? 3)) &&
+         (t =? lastTU st) && (seq st + 1 >? x_uuid_MaxSeqID)
+      then 1 + wait_k t rest else 1
   end.
 
 (* a generator's life: calls of Next as long as readings remain.  The trace records, for
